@@ -136,9 +136,12 @@ class C04(Check):
         chk = self
 
         def assign(inst, ra, dec, marginSize):
-            chk._chunk = inst
+            if not chk.brd.in_protocol:        # (calls the buffer-reuse monitor makes on its own are not the case's geometry)
+                chk._chunk = inst
             return orig(inst, ra, dec, marginSize)
         SG.chunks.assign = assign
+        self.brd.attach(self.rec, SG, 'spherematch', every=5)
+        self.brd.per_case = 2
         self.rec.wrap(SG, 'spherematch')
         # known answers of the canaries, verified once against the independent reference (harness error if they disagree)
         self._canary = {}
